@@ -312,6 +312,14 @@ def rule_scale(ctx):
                   for x in walk_local(i.node) if isinstance(x, ast.Assign) and norm(x.value) == 'Tuning(tuning)')
     ctx.ob('C14.keys', f'{i.fq}:keeps-tuning', bool(rewrap) and guarded,
            'Tuning(tuning) on a Tuning instance resets the octave ratio to 2.0 and drops the name: it may only wrap a plain sequence', i.node, i.module)
+    dk = sc.methods['degree_to_key']
+    src = full(dk.node)
+    subs = [norm(x) for x in walk_local(dk.node) if isinstance(x, ast.Subscript) and norm(x.value) == 'self']
+    through_tuning = all(any(isinstance(p_, ast.Subscript) and norm(p_.value) == 'self.tuning' for p_ in U.parent_chain(x))
+                         for x in walk_local(dk.node) if isinstance(x, ast.Subscript) and norm(x.value) == 'self')
+    ctx.ob('C14.keys', f'{dk.fq}:through-tuning', bool(subs) and through_tuning,
+           f'a scale stores indexes into its tuning: degree_to_key must look the pitch up in the tuning (self.tuning[self[i]]), '
+           f'not add the index itself ({subs}); otherwise every tuning sounds like 12-tone equal temperament', dk.node, dk.module)
     ed = ctx.repo.cls('sc3.seq.event:EventDict')
     c = ed.methods['__call__']
     tests = [norm(x.test) for x in walk_local(c.node) if isinstance(x, ast.If) and 'tuple' in norm(x.test)]
@@ -424,6 +432,8 @@ def run(ctx):
 
 
 MUTANTS = [
+    dict(rule='C14.keys', name='(fix reverted) degree_to_key adds the tuning index, not the tuning value', file='sc3/seq/scale.py',
+         old="self.tuning[self[int(degree) % l]]", new="self[int(degree) % l]"),
     dict(rule='C14.rest', name='(fix reverted) Pmono latches the node id of a rest', file='sc3/seq/patterns/eventpatterns.py',
          old="                    if not evt.is_rest(event):  # No synth is created.\n                        server = event['server']\n                        node_id = event['node_id']\n                        mono_params = event['msg_params'][::2]  # For _update_msg_params\n                        cleanup.add_event(evt.event(\n                            {k: event[k] for k in kept_keys}, type='_mono_off'))\n",
          new="                    server = event['server']\n                    node_id = event['node_id']\n                    mono_params = event['msg_params'][::2]  # For _update_msg_params\n                    cleanup.add_event(evt.event(\n                        {k: event[k] for k in kept_keys}, type='_mono_off'))\n"),
